@@ -7,13 +7,15 @@
    Matrix class (basex, daun, onion_peeling, two_point, three_point, rbasex per
    angular order): the terms are GENERATED from /repo (gen/MatrixExpr.v).
    hansenlaw: model/HansenLaw.v (the recursion, arbitrary tables) whose dr
-   sites are tied to gen/DrSites.v.  onion_bordas, direct: dr sites only
-   (gen/DrSites.v); their linearity is checked on the implementation.
+   sites are tied to gen/DrSites.v.  onion_bordas: model/OnionBordas.v (the
+   peeling loop, arbitrary tables, tied by a vm_compute correspondence run)
+   plus its dr site.  direct: dr sites only (gen/DrSites.v); its linearity
+   is checked on the implementation.
    NNLS solvers: by specification (model/LinOps.v). *)
 From mathcomp Require Import all_ssreflect all_algebra.
 From Coq Require Import List Reals.
 From PA Require Import base.Arr base.MxNp gen.MatrixExpr gen.DrSites model.LinOps model.HansenLaw
-  model.Symmetry proofs.MxAlgebra proofs.LinOpsProofs proofs.HansenLawProofs proofs.DrSitesProofs proofs.DirectScaling
+  model.Symmetry proofs.MxAlgebra proofs.LinOpsProofs proofs.HansenLawProofs model.OnionBordas proofs.OnionBordasProofs proofs.DrSitesProofs proofs.DirectScaling
   proofs.C06R proofs.SymLinear.
 Import GRing.Theory Num.Theory.
 
@@ -214,6 +216,37 @@ Proof.
 exact (conj hl_step_is_source (conj hl_run_is_source (conj hl_columns_are_source hl_core_is_source))).
 Qed.
 Print Assumptions C04_hansenlaw_model_is_source.
+
+(* ---- onion_bordas: the peeling loop itself, arbitrary tables val1 / val2 -------- *)
+Theorem C04_onion_bordas_linear :
+  forall (val1 val2 : nat -> nat -> R) (a b dr : R) (h w : nat) (X Y : list (list R)),
+  wfR h w X -> wfR h w Y ->
+  ob_imageR val1 val2 dr (icomb a b X Y) = icomb a b (ob_imageR val1 val2 dr X) (ob_imageR val1 val2 dr Y).
+Proof. exact onion_bordas_linear. Qed.
+Print Assumptions C04_onion_bordas_linear.
+
+(* val2 independent of its row index is checked on the tables of the running implementation *)
+Theorem C04_onion_bordas_rowwise :
+  forall (val1 val2 : nat -> nat -> R), (forall i j j', val2 i j = val2 i j') ->
+  forall (dr : R) (X Y : list (list R)) (i j : nat),
+  Peano.lt i (List.length X) -> Peano.lt j (List.length Y) -> List.nth i X nil = List.nth j Y nil ->
+  List.nth i (ob_imageR val1 val2 dr X) nil = List.nth j (ob_imageR val1 val2 dr Y) nil.
+Proof. exact onion_bordas_row_of_any_image. Qed.
+Print Assumptions C04_onion_bordas_rowwise.
+
+Theorem C04_onion_bordas_model_dr :
+  forall (val1 val2 : nat -> nat -> R) (rv : nat) (dr : R) (l : list R), dr <> 0 ->
+  ob_rowR val1 val2 rv dr l = scal (/ dr) (ob_rowR val1 val2 rv 1 l).
+Proof. exact onion_bordas_dr. Qed.
+Print Assumptions C04_onion_bordas_model_dr.
+
+Theorem C04_onion_bordas_dr_site_tied :
+  forall (val1 val2 : nat -> nat -> R) (rv : nat) (dr : R) (l : list R),
+  ob_rowR val1 val2 rv dr l =
+  List.map (g_ob_scale dr) (List.rev (peelR val1 val2 rv (List.length l - 1) (List.rev l) ++
+                            cons (List.last (peelR val1 val2 rv (List.length l - 1) (List.rev l)) 0) nil)).
+Proof. exact onion_bordas_scale_tied. Qed.
+Print Assumptions C04_onion_bordas_dr_site_tied.
 
 (* onion_bordas: the only use of dr is the final division *)
 Theorem C04_dr_onion_bordas : forall dr y : R, dr <> 0 -> g_ob_scale dr y = / dr * g_ob_scale 1 y.
